@@ -59,7 +59,9 @@ M = [
  ('M10-01', 'C10', 'database.py', "        self.theDraws = np.moveaxis(self.theDraws, 0, -1)", "        self.theDraws = np.moveaxis(self.theDraws[::-1], 0, -1)", 'I10'),
  ('M10-02', 'C10', 'biogeme.py', "        if self.seed != 0:\n            np.random.seed(self.seed)", "        if self.seed > 1:\n            np.random.seed(self.seed)", 'I10.seed'),
  ('M12-01', 'C12', 'biogeme.py', "        self.theC.setMissingData(self.missing_data)", "        self.theC.setMissingData(99999)", 'I12.3'),
- ('M12-02', 'C12', 'database.py', "            raise BiogemeError(error_msg)\n\n        self.data = pandas_database  #: Pandas data frame containing the data.", "            pass\n\n        self.data = pandas_database  #: Pandas data frame containing the data.", 'I12.1'),
+ # (until the repair of F22 this mutant removed the constructor's refusal of an empty table; since c22430a the audit of the
+ # database refuses it as well, which made that mutant equivalent - it now disables the audit's refusal instead)
+ ('M12-02', 'C12', 'database.py', "        if self.data.empty:\n            # E.g., all the observations have been removed after the\n            # database was created.\n            list_of_errors.append('Database has no entry')", "        if False:\n            list_of_errors.append('Database has no entry')", 'I12'),
 ]
 
 
